@@ -183,6 +183,26 @@ def same_bytes_corpus(ctx):
     one_case(ctx, wide_r.view(np.uint8), wide_p.view(np.uint8), "corpus.same-bytes")
 
 
+def inplace_history_corpus(ctx):
+    """the caller's two buffers are refilled in place between calls (one instance after the other written into the same arrays, the way a
+    loop over labels with `np.equal(labels, k, out=buf)` does): every call is judged on the contents at the time of the call"""
+    rng = ctx.rng
+    for dt in (np.uint8, bool):
+        lab_r = np.zeros((9, 12), np.uint8)
+        lab_p = np.zeros((9, 12), np.uint8)
+        lab_r[1:4, 1:5], lab_p[1:4, 2:6] = 1, 1
+        lab_r[5:8, 1:4], lab_p[5:8, 1:4] = 2, 2          # identical masks: ASSD 0
+        lab_r[1:7, 7:11], lab_p[2:8, 8:11] = 3, 3
+        lab_r[8, 0:3], lab_p[8, 1:5] = 4, 4
+        buf_r, buf_p = np.zeros((9, 12), dt), np.zeros((9, 12), dt)
+        order = [1, 2, 3, 4, 2, 1]
+        for k in order:
+            buf_r[...] = (lab_r == k)
+            buf_p[...] = (lab_p == k)
+            ctx.count("buffers_refilled_in_place")
+            one_case(ctx, buf_r, buf_p, "corpus.inplace-history")
+
+
 def very_far(ctx, n):
     """single voxels tens of thousands of voxels apart (squared distances beyond 2^31)"""
     rng = ctx.rng
@@ -236,6 +256,7 @@ def pipeline_cases(ctx, n):
 def run(ctx):
     corpus(ctx)
     same_bytes_corpus(ctx)
+    inplace_history_corpus(ctx)
     very_far(ctx, ctx.scale(2, 8))
     pipeline_cases(ctx, ctx.scale(25, 250))
     run_cases(ctx, ctx.scale(600, 6000), "rand")
@@ -272,6 +293,9 @@ def replay(ctx, rec):
         got = sorted(res["ungrouped"]["list_ASSD"]) if isinstance(res, dict) else res
         if isinstance(got, str) or len(got) != len(want) or any(not close(a, b) for a, b in zip(got, want)):
             ctx.violation(f"per-instance ASSD through the evaluator is {got}, definition gives {want}", i, key={"kind": "assd-embedding"})
+        return
+    if i.get("src") == "corpus.inplace-history":
+        inplace_history_corpus(ctx)      # the failing call needs the calls before it (same array objects, other contents)
         return
     if i.get("src") == "corpus.same-bytes":
         same_bytes_corpus(ctx)          # the failing call needs the calls before it (same process, same buffers)
